@@ -101,7 +101,10 @@ StreamWords(f, name, vlen, nwin, msd, tp, pdf) ==
                                ELSE (IF i = 2 THEN << 1, 1 >> ELSE IF i = 1 THEN << 1 + (Mix(tp, pdf, 1, WSalt(f)) % 2), 2 >> ELSE << 1, 3 >>)
       vari(j) == << 1 + (Mix(tp, j, WSalt(f) + 1, pdf) % 3), 2 >>                                   \* 1/4, 1/2, 3/4
   IN [j \in 1..n |-> mean(j)] \o [j \in 1..n |-> vari(j)] \o
-     (IF msd THEN << << 1 + 2 * (Mix(tp, pdf, 2, WSalt(f)) % 4), 3 >> >> ELSE <<>>)                 \* 1/8, 3/8, 5/8, 7/8
+     \* voicing weights 1/8, 3/8, 5/8, 7/8 - and, for one PDF in six, a value outside [0, 1] (9/8 or -1/8): the format does not
+     \* restrict the entry, a reader must hand it on unchanged (such a state is voiced / unvoiced at every threshold in [0, 1])
+     (IF msd THEN (LET k == Mix(tp, pdf, 2, WSalt(f)) % 12 IN
+                   << IF k = 10 THEN << 9, 3 >> ELSE IF k = 11 THEN << -1, 3 >> ELSE << 1 + 2 * (k % 4), 3 >> >>) ELSE <<>>)
 GvWords(f, vlen, pdf) == [i \in 1..vlen |-> << 1 + (Mix(pdf, i, WSalt(f), 2) % 3), 6 >>] \o       \* GV mean 1/64 .. 3/64
                          [i \in 1..vlen |-> << 1 + (Mix(pdf, i, WSalt(f), 1) % 2), 2 >>]
 
